@@ -15,8 +15,8 @@ package configmigrate_test
 import (
 	"bytes"
 	"fmt"
-	"math"
 	"io"
+	"math"
 	"os"
 	"path/filepath"
 	"runtime/debug"
